@@ -29,3 +29,15 @@ Proof.
     apply (Hd x); [left; reflexivity|exact Hin].
   - apply IH; [assumption|assumption|]. intros y Hy1 Hy2. apply (Hd y); [right; exact Hy1|exact Hy2].
 Qed.
+
+Lemma firstn_add_skipn {A} (a b : nat) (l : list A) : firstn (a + b) l = firstn a l ++ firstn b (skipn a l).
+Proof.
+  revert l. induction a as [|a IH]; intros l; [reflexivity|].
+  destruct l as [|x r]; [cbn; destruct b; reflexivity|]. cbn. f_equal. apply IH.
+Qed.
+
+Lemma skipn_add {A} (a b : nat) (l : list A) : skipn a (skipn b l) = skipn (b + a) l.
+Proof.
+  revert l. induction b as [|b IH]; intros l; [reflexivity|].
+  destruct l as [|x r]; [cbn; destruct a; reflexivity|]. cbn. apply IH.
+Qed.
